@@ -334,6 +334,11 @@ Theorem C01_split_point_irrelevant :
   forall r (h : list (option hevent)) s,
     c03_run_split r h s = rx_run c03_state c03_arrive c03_fin (c03_poll r) (without_splits h) s.
 Proof. exact split_point_irrelevant. Qed.
+(* however the transport segments the buffer it hands over (RecvStream::Buf is any Buf), all of it enters h3's receive
+   buffer: BufList::push_bytes copies buf.remaining() bytes; it and the functions that read the list again (BufList
+   take_chunk / remaining / chunk / advance, Cursor) are anchored to the source by translate/gen_buflist.py *)
+Theorem C01_transport_buffer_taken_whole : forall segments, pushed segments = concat segments.
+Proof. exact pushed_is_whole. Qed.
 Theorem C01_layout_reads_back :
   forall hb pieces tb g,
     len hb < 2 ^ 62 -> Forall (fun p => len p < 2 ^ 62) pieces -> match tb with Some b => len b < 2 ^ 62 | None => True end ->
@@ -353,14 +358,14 @@ Proof. exact c14_write_exact. Qed.
    arrives as itself *)
 Example C01_pipeline_inhabited :
   let q := {| q_method := [80; 79; 83; 84]; q_scheme := Some [104; 116; 116; 112]; q_authority := Some [97; 46; 98];
-              q_path := Some [47; 120; 63; 121];
+              q_path := Some [47; 120; 63; 121]; q_protocol := None;
               q_fields := [([88; 45; 65], [49]); ([120; 45; 97], [50]); ([98], []); ([120; 45; 65], [51])] |} in
   let m := Msg q [[1; 2; 3]; []; [4; 5]; [6]] (Some [([116], [49]); ([116], [50])]) in
   ref_request_outcome (Some 5) m [1; 1; 2; 0; 3] [1; 2; 3; 1; 1; 1; 1; 1] [0; 2; 1; 0; 0; 1]
   = Some (expected_events norm_request norm_trailers m)
   /\ expected_events norm_request norm_trailers m
      = [AHead {| v_method := [80; 79; 83; 84]; v_scheme := Some [104; 116; 116; 112]; v_authority := Some [97; 46; 98];
-                 v_path := Some [47; 120; 63; 121];
+                 v_path := Some [47; 120; 63; 121]; v_protocol := None;
                  v_fields := [([120; 45; 97], [[49]; [50]; [51]]); ([98], [[]])] |};
         ABody [1; 2; 3; 4; 5; 6]; ABodyEnd; ATrailers [([116], [[49]; [50]])]; AEnd].
 Proof. split; vm_compute; reflexivity. Qed.
@@ -391,3 +396,4 @@ Print Assumptions C01_layout_reads_back.
 Print Assumptions C01_field_section_roundtrip.
 Print Assumptions C01_h3_reader_any_interleaving.
 Print Assumptions C01_split_point_irrelevant.
+Print Assumptions C01_transport_buffer_taken_whole.
